@@ -69,26 +69,35 @@ def arm_summary(B, res):
     """callee names and Ordering constants in the region reached from an arm's first value-dependent block"""
     if res['kind'] != 'compares':
         return None
-    reg = B.reachable(res['bb'])
     calls = []
     consts = set()
-    for bb in sorted(reg):
-        t = B.blocks[bb]['t']
-        if t['k'] == 'call':
-            g, r = callee_of(t)
-            n = (r or g or '')
-            if n.rsplit('::', 1)[-1] in CONV:
-                continue
-            calls.append(r or g)
-            for a in t['args']:
-                if a['k'] == 'c' and 'fn' in a:
-                    calls.append(a['fn'])
-        for st in B.blocks[bb]['s']:
-            if st['k'] == '=' and st['rv']['k'] == 'agg' and st['rv'].get('adt') == 'core::cmp::Ordering':
-                consts.add(st['rv']['var'])
-        for st in B.blocks[bb]['s']:
-            if st['k'] == '=' and st['rv']['k'] == 'agg' and st['rv']['ak'] in ('closure',):
-                calls.append('closure')
+
+    def scan(XB, reg, depth):
+        for bb in sorted(reg):
+            t = XB.blocks[bb]['t']
+            if t['k'] == 'call':
+                g, r = callee_of(t)
+                n = (r or g or '')
+                # `a.then_with(|| b)`: the closure's operations are listed in its place (below)
+                if n.rsplit('::', 1)[-1] not in CONV and n != 'core::cmp::Ordering::then_with':
+                    calls.append(r or g)
+                    for a in t['args']:
+                        if a['k'] == 'c' and 'fn' in a:
+                            calls.append(a['fn'])
+            for st in XB.blocks[bb]['s']:
+                if st['k'] == '=' and st['rv']['k'] == 'agg' and st['rv'].get('adt') == 'core::cmp::Ordering':
+                    consts.add(st['rv']['var'])
+            for st in XB.blocks[bb]['s']:
+                if st['k'] == '=' and st['rv']['k'] == 'agg' and st['rv']['ak'] in ('closure',):
+                    if st['rv'].get('expanded'):
+                        continue       # already spliced in at its then_with
+                    CB = XB.PROGRAM.B(st['rv'].get('def')) if getattr(XB, 'PROGRAM', None) is not None else None
+                    if CB is not None and depth < 3:
+                        # what the closure does counts as done here: written inline or behind then_with makes no difference
+                        scan(CB, CB.live_blocks(), depth + 1)
+                    else:
+                        calls.append('closure')
+    scan(B, B.reachable(res['bb']), 0)
     return calls, consts
 
 
@@ -400,8 +409,17 @@ def run(ctx):
             norm = lambda xs: sorted(_norm_callee(x) for x in xs)
             if norm(so[0]) == norm(sb[0]) and so[1] == sb[1]:
                 ctx.ok('C11.5-twin-pairs', inst, 'same recipe')
+            elif {x for x in norm(so[0]) if x.startswith('X::')} ^ {x for x in norm(sb[0]) if x.startswith('X::')}:
+                # one copy has been factored through a helper of its own module that the other copy does not call: the arms can no longer be
+                # compared operation by operation; each side is decided on its own by the ordering rules (C11.1 pairs / ranks, C12.4 / C12.5 recipes,
+                # field comparisons), which run for both term types
+                ctx.undecided('C11.5-twin-pairs', inst, 'one copy calls a module-local helper the other does not (%s); each side is decided by the per-type ordering rules instead'
+                              % sorted({x for x in norm(so[0]) if x.startswith('X::')} ^ {x for x in norm(sb[0]) if x.startswith('X::')})[:3])
             else:
-                ctx.bad('C11.5-twin-pairs', inst, 'arms differ: owned %s %s, borrowed %s %s' % (norm(so[0])[:4], sorted(so[1]), norm(sb[0])[:4], sorted(sb[1])), key='TWIN:cmp:%s' % inst)
+                from collections import Counter as _Ctr
+                co_, cb_ = _Ctr(norm(so[0])), _Ctr(norm(sb[0]))
+                ctx.bad('C11.5-twin-pairs', inst, 'arms differ: only in owned %s %s, only in borrowed %s %s' % (sorted((co_ - cb_).elements())[:6], sorted(so[1] - sb[1]), sorted((cb_ - co_).elements())[:6], sorted(sb[1] - so[1])),
+                        key='TWIN:cmp:%s' % inst)
         else:
             ctx.ok('C11.5-twin-pairs', inst, _show(ro))
     ctx.rule('C11.5-twin-helpers', 'the numeric helpers duplicated in borrowed.rs have bodies identical to those in term.rs', floor=9)
